@@ -60,3 +60,33 @@ Example new_publish_ok :
   let p := Seq (Acq 0 R) (Seq (Rel 0 R) (Loop (Seq (Acq 1 R) (Seq Guarded (Rel 1 R))))) in
   never_waits_holding 0 p = true /\ never_waits_holding 1 p = false /\ safe_prog 2 p = true.
 Proof. repeat split; reflexivity. Qed.
+
+(* ---- "takes its own lock exactly once, in the expected mode, on EVERY path" ----
+   [entries] is an upper bound over paths; [min_entries] the lower bound (a path that never locks gives 0);
+   [entries_m] counts acquisitions in one mode.  A method pinned as (l, m) must have max = min = 1 and no acquisition of l
+   in the other mode; a helper pinned as "called with the lock held" must never acquire it. *)
+Fixpoint min_entries (l : nat) (p : prog) : nat :=
+  match p with
+  | Acq l' _ => if l' =? l then 1 else 0
+  | Seq a b => Nat.min 2 (min_entries l a + min_entries l b)
+  | Alt a b => Nat.min (min_entries l a) (min_entries l b)
+  | _ => 0
+  end.
+Fixpoint entries_m (l : nat) (m : mode) (p : prog) : nat :=
+  match p with
+  | Acq l' m' => if (l' =? l) && mode_eqb m' m then 1 else 0
+  | Seq a b => Nat.min 2 (entries_m l m a + entries_m l m b)
+  | Alt a b => Nat.max (entries_m l m a) (entries_m l m b)
+  | Loop a => if entries_m l m a =? 0 then 0 else 2
+  | _ => 0
+  end.
+Definition other_mode (m : mode) : mode := match m with R => W | W => R end.
+Definition locks_exactly_once (l : nat) (m : mode) (p : prog) : bool :=
+  (entries l p =? 1) && (min_entries l p =? 1) && (entries_m l (other_mode m) p =? 0).
+Definition never_locks (l : nat) (p : prog) : bool := entries l p =? 0.
+
+Example unlocked_reader_rejected : locks_exactly_once 0 R Call = false. Proof. reflexivity. Qed.
+Example wrong_mode_rejected : locks_exactly_once 0 W (Seq (Acq 0 R) (Seq Call (Rel 0 R))) = false. Proof. reflexivity. Qed.
+Example lock_on_one_path_only_rejected : locks_exactly_once 0 W (Alt Skip (Seq (Acq 0 W) (Rel 0 W))) = false. Proof. reflexivity. Qed.
+Example locked_mutator_accepted :
+  locks_exactly_once 0 W (Seq (Acq 0 W) (Alt (Rel 0 W) (Seq Call (Rel 0 W)))) = true. Proof. reflexivity. Qed.
